@@ -495,8 +495,8 @@ def align_variable_names_with_convention(
                     renamings[refnode].add(substitute)
             for node in parsing.iter_funcdefs(partial_tree):
                 name = node.name
-                # Don't rename magic members, don't rename if there is inheritance.
-                if partial_tree.bases or parsing.is_magic_method(node):
+                # Don't rename magic members, don't rename if there is inheritance or a metaclass.
+                if partial_tree.bases or partial_tree.keywords or parsing.is_magic_method(node):
                     renamings[node] = {name}
                 funcdefs.append(node)
                 substitute = style.rename_variable(
@@ -508,7 +508,11 @@ def align_variable_names_with_convention(
             for node in parsing.iter_assignments(partial_tree):
                 name = node.id
                 # Don't rename magic members, don't rename if there is inheritance.
-                if partial_tree.bases or (name.startswith("__") and name.endswith("__")):
+                if (
+                    partial_tree.bases
+                    or partial_tree.keywords
+                    or (name.startswith("__") and name.endswith("__"))
+                ):
                     renamings[node] = {name}
                 substitute = style.rename_variable(
                     name, private=parsing.is_private(name), static=False
@@ -1258,6 +1262,8 @@ def remove_duplicate_functions(source: str, preserve: Collection[str]) -> str:
                 definitions[node.name] > 1
                 or fixed_names[node.name]
                 or node.name in assigned_names
+                # Nothing is renamed to the name of a builtin, see _fix_variable_names
+                or node.name in constants.BUILTIN_FUNCTIONS
         )}
         if len(funcdefs) <= 1:
             continue
